@@ -254,7 +254,7 @@ def _power(draw, og):
     a = og.array(draw, max_ndim=2)
     if getattr(og, "mode", "") == "const" and draw(st.integers(0, 3)) == 0:
         # on numbers numpy also takes negative and fractional exponents (or rejects them for integers)
-        return {"args": [P(a), draw(st.sampled_from([-1, -2, 0.5, 1.5, 2.0]))], "kw": {}}
+        return {"args": [P(a), draw(st.sampled_from([-1, -2, 0.5, 1.5, 2.0, 1e30, float("inf"), 2.0 ** 63]))], "kw": {}}
     if draw(st.booleans()):
         return {"args": [P(a), draw(st.integers(0, 3))], "kw": {}}
     shp = gen.broadcast_member(draw, tuple(a["shape"]))
@@ -450,6 +450,8 @@ def _prod(draw, og):
 def _mean(draw, og):
     a = og.array(draw, min_ndim=1)
     kw = _with_dtype(draw, _reduce_kw(draw, a), a)
+    if "dtype" not in kw and draw(st.integers(0, 2)) == 0:
+        kw["dtype"] = {"$dtype": "complex128"}  # (a requested type that shows in the result whatever the input)
     if kw.get("dtype", {}).get("$dtype") == "int64":
         kw.pop("dtype")  # numpy's integer mean truncates: not the arithmetic mean any more
     return {"args": [P(a)], "kw": kw}
@@ -496,6 +498,15 @@ def _matmul(draw, og):
     sa, sb = {"mm": ((n, k), (k, m)), "vm": ((k,), (k, m)), "mv": ((n, k), (k,)), "vv": ((k,), (k,)),
               "smm": ((2, n, k), (k, m)), "msm": ((n, k), (2, k, m)), "ssm": ((2, n, k), (2, k, m))}[form]
     kw = {}
+    if form == "ssm" and draw(st.integers(0, 2)) == 0:
+        # stacked operands with the matrix axes of the result (or of an operand) somewhere else
+        how = draw(st.sampled_from(["out-front", "out-mixed", "a-front"]))
+        if how == "out-front":
+            kw["axes"] = [{"$tuple": [-2, -1]}, {"$tuple": [-2, -1]}, {"$tuple": [0, 1]}]
+        elif how == "out-mixed":
+            kw["axes"] = [{"$tuple": [-2, -1]}, {"$tuple": [-2, -1]}, {"$tuple": [2, 0]}]
+        else:
+            sa, kw["axes"] = (n, k, 2), [{"$tuple": [0, 1]}, {"$tuple": [-2, -1]}, {"$tuple": [-2, -1]}]
     if form == "mm" and draw(st.integers(0, 4)) == 0:
         # the generalised-ufunc keyword: which axes of the operands and of the result hold the matrices
         how = draw(st.sampled_from(["a", "b", "out"]))
@@ -833,6 +844,13 @@ def _where(draw, og):
     cshape = gen.broadcast_member(draw, target)
     size = gen.size_of(cshape)
     cond = NP(draw(st.lists(st.booleans(), min_size=size, max_size=size)), dtype="bool", shape=cshape)
+    if draw(st.integers(0, 2)) == 0:
+        # a polynomial as condition: an element is true unless it is the zero polynomial
+        # (also when its coefficients happen to sum to zero, like q0-1)
+        cpoly = og.array(draw, shape=cshape)
+        if "terms" in cpoly and len(cpoly["terms"]) >= 2 and draw(st.booleans()):
+            cpoly["terms"][1][1] = [-v for v in cpoly["terms"][0][1]]
+        cond = P(cpoly)
     a = og.array(draw, shape=target if draw(st.booleans()) else gen.broadcast_member(draw, target))
     b = og.related(draw, a, gen.broadcast_member(draw, target))
     return {"args": [cond, P(a), P(b)], "kw": {}}
@@ -1109,6 +1127,15 @@ def _x_allocation(draw, og):
                                    "then": draw(st.sampled_from([None, None, "hsplit", "vsplit", "add"]))}}
 
 
+@extra("cancel-then-unary")
+def _x_cancel_unary(draw, og):
+    """(p - p + c) - it keeps all-zero terms when they are retained - through an element-wise or reducing function"""
+    a = og.array(draw, min_ndim=1, max_ndim=2)
+    return {"args": [P(a)], "kw": {"fn": draw(st.sampled_from(["isfinite", "absolute", "negative", "floor", "square", "sum",
+                                                             "any", "all", "count_nonzero", "around", "mean", "cumsum"])),
+                                   "const": draw(st.sampled_from([1, 2, 0, -3]))}}
+
+
 @extra("construct-nested-list")
 def _x_nested(draw, og):
     a = og.array(draw, min_ndim=1, max_ndim=2)
@@ -1270,6 +1297,9 @@ def invoke_extra(name, args, kw):
         if kw["then"] == "add":
             return out + out
         return out
+    if name == "cancel-then-unary":
+        z = p - p + kw["const"]
+        return getattr(numpoly, kw["fn"])(z)
     if name == "construct-nested-list":
         items = [x for x in p] if kw["depth"] == 1 or p.ndim < 2 else [[y for y in x] for x in p]
         return numpoly.polynomial(items)
